@@ -301,6 +301,41 @@ def scan_crates(repo, crate_dirs):
                             key = (owner[i], toks[j].text)
                             if key not in locals_ or end < locals_[key]:
                                 locals_[key] = end
+    # a local bound by DESTRUCTURING a struct that has a hash-typed field is hash-bound too:
+    # `let BuiltInScalars { used_and_undefined, all: known, .. } = self;`
+    for rel, (toks, spans, owner, locals_) in per.items():
+        n = len(toks)
+        for i, t in enumerate(toks):
+            if t.text == "let" and t.kind == "ident" and owner[i] >= 0:
+                j = i + 1
+                # a path: Ident (:: Ident)*
+                while j + 1 < n and toks[j].kind == "ident" and toks[j + 1].text == "::":
+                    j += 2
+                if j + 1 < n and toks[j].kind == "ident" and toks[j + 1].text == "{":
+                    close = find_matching(toks, j + 1)
+                    k = j + 2
+                    while k < close:
+                        if toks[k].text in ("ref", "mut"):
+                            k += 1
+                            continue
+                        if toks[k].kind == "ident" and toks[k].text in fields:
+                            name = toks[k].text
+                            if k + 2 < close and toks[k + 1].text == ":" and toks[k + 2].kind == "ident" and toks[k + 2].text not in ("ref", "mut"):
+                                name = toks[k + 2].text
+                            elif k + 3 < close and toks[k + 1].text == ":" and toks[k + 2].text in ("ref", "mut") and toks[k + 3].kind == "ident":
+                                name = toks[k + 3].text
+                            key = (owner[i], name)
+                            if key not in locals_ or close < locals_[key]:
+                                locals_[key] = close
+                        # skip to the next top-level comma
+                        depth = 0
+                        while k < close and not (toks[k].text == "," and depth == 0):
+                            if toks[k].kind == "punct" and toks[k].text in "([{":
+                                depth += 1
+                            elif toks[k].kind == "punct" and toks[k].text in ")]}":
+                                depth -= 1
+                            k += 1
+                        k += 1
     sites = []
     for rel, (toks, spans, owner, locals_) in per.items():
         sites += scan_sites(rel, toks, spans, owner, locals_, fields, fn_names_for(rel), None)
